@@ -50,7 +50,7 @@ func c09Baseline(r *core.Rng) *c09Base {
 	pkgs := world.GenPackages(r, o)
 	// the target package needs ≥2 interfaces
 	tgt := 0
-	for len(pkgs[tgt].AllIfaces(nil)) < 2 {
+	for len(pkgs[tgt].AllIfaces(nil)) < 3 {
 		f := &pkgs[tgt].Files[0]
 		f.Ifaces = append(f.Ifaces, world.Iface{Name: "Extra" + fmt.Sprint(len(f.Ifaces)), Methods: []int{r.Intn(len(world.MethodPool))}})
 	}
@@ -241,6 +241,11 @@ func c09Faults() []c09Fault {
 		{Class: "cyclic-template", Variant: "structname-self", Levels: all, Apply: set("structname", "{{.StructName}}x")},
 		{Class: "schema-reject", Variant: "extra-key", Levels: all, Apply: td("no-such-option", 1)},
 		{Class: "schema-reject", Variant: "wrong-type", Levels: all, Apply: td("mock-build-tags", 7)},
+		// a key that is valid above and overridden below with a value the schema rejects
+		{Class: "schema-reject", Variant: "override-with-wrong-type", Levels: []string{"package", "interface", "configs"}, Apply: func(b *c09Base, lv string, _ *simrt.Plan) {
+			b.proj.Config.Sub("template-data").Set("mock-build-tags", "!nomocks")
+			b.level(lv).Sub("template-data").Set("mock-build-tags", 7)
+		}},
 		{Class: "bad-regex", Variant: "include", Levels: []string{"root", "package"}, Apply: func(b *c09Base, lv string, _ *simrt.Plan) {
 			regexSetup(b)
 			b.level(lv).Set("include-interface-regex", "(")
@@ -267,6 +272,18 @@ func c09Faults() []c09Fault {
 					e := b.proj.Config.Sub("packages").Sub(c09Mod + "/" + q.Dir)
 					e.Sub("config").Set("all", true)
 					e.Sub("interfaces").Set("Storr", world.NewY())
+					return
+				}
+			}
+		}},
+		{Class: "missing-interface", Variant: "name-exists-only-in-another-package", Levels: []string{""}, Apply: func(b *c09Base, _ string, _ *simrt.Plan) {
+			// the listed name is declared (and configured) in a different package, not in this one
+			for i, q := range b.proj.Pkgs {
+				if i != b.target {
+					other := q.AllIfaces(nil)[0]
+					e := b.proj.Config.Sub("packages").Sub(c09Mod + "/" + q.Dir)
+					e.Sub("interfaces").Set(other, world.NewY())
+					b.proj.Config.Sub("packages").Sub(b.tpath()).Sub("interfaces").Set(other, world.NewY())
 					return
 				}
 			}
@@ -311,6 +328,19 @@ func c09Faults() []c09Fault {
 		}},
 		{Class: "file-conflict", Variant: "two-packages-one-file", Levels: []string{""}, Apply: func(b *c09Base, _ string, _ *simrt.Plan) {
 			b.proj.Config.Set("dir", "mocks/shared")
+		}},
+		{Class: "file-conflict", Variant: "two-packages-one-file-same-interface-names", Levels: []string{""}, Apply: func(b *c09Base, _ string, _ *simrt.Plan) {
+			// a second package declaring interfaces of the same names, sent to the target's file
+			q := b.tpkg()
+			var ifs []world.Iface
+			for _, f := range q.Files {
+				for _, i := range f.Ifaces {
+					ifs = append(ifs, world.Iface{Name: i.Name, Methods: []int{9}})
+				}
+			}
+			b.proj.Pkgs = append(b.proj.Pkgs, world.Pkg{Dir: "twin", Name: "twin", Files: []world.SrcFile{{Name: "twin.go", Ifaces: ifs}}})
+			e := b.proj.Config.Sub("packages").Sub(c09Mod + "/twin")
+			e.Sub("config").Set("all", true).Set("dir", "mocks/"+b.tpath())
 		}},
 		{Class: "file-conflict", Variant: "pkgname-differs", Levels: []string{"interface", "configs"}, Apply: set("pkgname", "othermocks")},
 		{Class: "file-conflict", Variant: "template-differs", Levels: []string{"interface", "configs"}, Apply: func(b *c09Base, lv string, _ *simrt.Plan) {
